@@ -2,7 +2,7 @@
 from ..core import Script, hx
 
 ID = "C18"
-SUITES = ["b62"]
+SUITES = ["b62", "config"]
 LEAN_MODULES = ["VpnCloud.Proofs.C18", "VpnCloud.Proofs.C18More"]
 THEOREMS = ["VpnCloud.Proofs.C18." + n for n in (
     "toBase62_total", "toBase62_value", "fromBase62_value", "fromBase62_error", "from_to",
@@ -48,7 +48,9 @@ def nontrivial_key(op, obs):
     if k in ("seedcheck", "pwcheck"):
         kp = [f for f in obs.split(" ") if f.startswith("keypub=")]
         return (k, _lz(t[1]) if k == "seedcheck" else -1, _lz(kp[0][7:]) if kp else -1, len(t[1]) // 64)
-    if t[1] == "-":
+    if k.startswith("cfg"):
+        return (k, len(t), "trusted_keys" in op, "private_key" in op)
+    if len(t) < 2 or t[1] == "-":
         return None
     return (k, min(len(t[1]) // 2, 40), obs_class(op, obs), _lz(t[1]))
 
@@ -63,6 +65,16 @@ PASSWORDS = ["", "test", "test123", "password", "secret7698", "a", "äöüß", "
 
 def gen(tier, rng):
     thorough = tier == "thorough"
+    # "accepted when configured as private, public or trusted key": the key options through the configuration merge (file + command line;
+    # trusted keys accumulate, the others take the command-line value) — the same documented rules as C20, for the key options
+    from . import C20 as _c20
+    kops = ["cfgdefault"]
+    keyopts = ["password", "private_key", "public_key", "trusted_keys"]
+    for _ in range(400 if thorough else 60):
+        fo = [o for o in keyopts if rng.chance(1, 2)]
+        ao = _c20.fix_arg_opts(rng, [o for o in keyopts if rng.chance(1, 2)])
+        kops.append("%s %s %s" % (rng.choice(["cfgmerge", "cfgrt"]), _c20.file_assign(rng, fo), _c20.arg_assign(rng, ao)))
+    yield Script("key-options", kops, {"suite": "config"})
     ops = ["b62enc -"]
     for a in range(256):
         ops.append("b62enc %02x" % a)
